@@ -184,7 +184,7 @@ theorem canon_spec (ts : List TupleInfo) (i j : Nat) (hi : i < ts.length) (hj : 
   · intro h; rw [h]
 
 /-- The executor-side reading `canonical_tuple(id)` for a coherent context and ids in range. -/
-theorem canonOf_ofProgram (ts : List TupleInfo) (cs : List Const) (hp : List (List UInt8)) (i : Nat)
+theorem canonOf_ofProgram (ts : List TupleInfo) (cs : List Const) (hp : List Rope) (i : Nat)
     (hi : i < ts.length) :
     (Ctx.ofProgram ts cs hp).canonOf i = firstIdx (ts[i]).shape ts := by
   simp [Ctx.canonOf, Ctx.ofProgram, canonicalTuples_eq, hi]
